@@ -161,14 +161,6 @@ def _nl(node):
     raise Unmodelled(f'not a linear form: {ast.unparse(node)[:60]}')
 
 
-def same_expr(a, b):
-    return ast.dump(a) == ast.dump(b)
-
-
-def find_ifs(fnode, pred):
-    return [n for n in walk_local(fnode) if isinstance(n, ast.If) and pred(n)]
-
-
 def const_compares(test, attr, value):
     """Does `test` contain a comparison  <something>.attr == value ?"""
     for n in ast.walk(test):
